@@ -31,6 +31,12 @@ struct Round15 {
         if (std::floor(lf) != lf || !(lf <= e + delta) || !(e - delta < lf + 1)) fail(x, "floor_in = " + val_s(fl) + " but exact value is " + val_s(e));
         if (std::floor(lc) != lc || !(lc >= e - delta) || !(lc - 1 < e + delta)) fail(x, "ceil_in = " + val_s(ce) + " but exact value is " + val_s(e));
         if (std::floor(lr) != lr || !(std::fabs(lr - e) <= 0.5L + delta)) fail(x, "round_in = " + val_s(ro) + " but exact value is " + val_s(e));
+        // QuantityPoint forms: for units without an origin offset the point is rounded exactly like the quantity
+        {
+            auto pt = au::make_quantity_point<Src>(x); st.evals += 3;
+            if (!beq15(RR(au::floor_in(Dst{}, pt)), fl) || !beq15(RR(au::ceil_in(Dst{}, pt)), ce) || !beq15(RR(au::round_in(Dst{}, pt)), ro)) fail(x, "rounding a QuantityPoint differs from rounding the quantity (units without origin)");
+            if (!(au::round_as(Dst{}, pt).in(Dst{}) == ro)) fail(x, "round_as(point) differs");   // by value: reading a point re-adds a zero origin displacement, which turns -0.0 into +0.0
+        }
         // _as forms and explicit-rep forms are the same numbers
         if (!beq15(au::floor_as(Dst{}, q).in(Dst{}), fl) || !beq15(au::ceil_as(Dst{}, q).in(Dst{}), ce) || !beq15(au::round_as(Dst{}, q).in(Dst{}), ro)) fail(x, "_as form differs from _in form");
         if (std::fabs(e) < 2e9L) {
